@@ -19,7 +19,7 @@ TRUSTED = [
     'reading of the property as Props.C19.holdsOn / holdsOnT / holdsOnM (plain insertion-ordered dict keyed by lower-cased names; policy field list; conventional capitalisation)',
     'hand model of Debian822 / normalize_control_field_name / parse_control_fields, tied by correspondence; DEPS_FIELDS and special_cases regenerated from the source each run',
     'str.lower / capitalize are ASCII in the model (field names are ASCII by policy); email.utils.parseaddr (standard library, not part of /repo) is modelled by hand in Model/Addr.lean for the first address of a header (phrases, comments, quoted strings, routes, domain literals; address groups are outside the model) and tied to CPython by an adversarial correspondence stream - modelled, not verified',
-    'the text / file-object construction routes are observed against get_paragraph_data directly (two API routes compared on the implementation)',
+    'the text / file-object construction routes are modelled (Route.text / Route.file: the paragraph data of the text after signature removal, through the models of C08 and C16) and tied by correspondence on histories; they are also compared with get_paragraph_data on the implementation',
     'translator harness/translate.py and this correspondence harness',
 ]
 ASSUMPTIONS = ['keys are ASCII strings', 'maintainer: single-spaced atoms-and-dots name; address a dot-atom, with or without @ and a dot-atom domain']
@@ -28,7 +28,7 @@ RULE = ('histories of <= 12 operations over 3 keys x 4 casings (all histories of
         'non-trivial = the history uses two casings of one key')
 TECHNIQUE = ('Lean 4 theorems: refinement of the mapping to a plain dict for an arbitrary lower function; typed fields of every paragraph with distinct names (soundT); DEPS_FIELDS = policy list and '
              'normalisation tables by decide; render/read-back proved through the C06 header-parser theorem (soundR); maintainer split proved through a model of email.utils.parseaddr (soundM) + executable spec on every observation + correspondence on operation histories and on adversarial maintainer strings')
-LEVEL_TEXT = ('Props.C19.refines_dict: for every construction route, every finite history of set/get/del/in/len/iter/to_dict and every lower function, '
+LEVEL_TEXT = ('Props.C19.refines_dict: for every construction route (mapping, pairs, "Name: value" strings, nothing, a text, a file object), every finite history of set/get/del/in/len/iter/to_dict and every lower function, '
               'the model of Debian822 returns exactly what a plain insertion-ordered dictionary driven by the same history with lower-cased keys returns '
               '(Lean 4, induction over the history). Tie theorems by decide over the regenerated tables: DEPS_FIELDS equals the policy relationship-field '
               'list, special_cases equals {md5sum, sha1, sha256}, and the model of normalize_control_field_name equals the conventional capitalisation. '
@@ -42,7 +42,7 @@ LEVEL_TEXT = ('Props.C19.refines_dict: for every construction route, every finit
               'Debian822(Debian822(pairs).dumps()).to_dict() - the mapping built from the pairs, its rendering under the conventional capitalisation, signature removal, the model of the header parser - is the paragraph itself under '
               'lower-cased names: the rendering is a one-paragraph document of the C06 grammar (dumps_eq, field_facts), the conventional capitalisation of a name lower-cases back to it (lowerAscii_conventional), the text is not taken for a '
               'signed message (not_signed), and the header-parser theorem of C06 (getParagraphData_para) does the rest. '
-              'The text/file construction routes are decided by the executable specification on every implementation observation and by correspondence.')
+              'For a text or a file object the dictionary the history starts from is the paragraph data of the text (what its keys and values are is C08).')
 LEVEL_NOTE = ('Trusted: Lean kernel; axioms propext, Classical.choice, Quot.sound only; ASCII restriction of lower/capitalize; email.utils.parseaddr is standard-library code modelled by hand (Model/Addr.lean) and tied by correspondence, groups outside the model.')
 
 KEYS = ['depends', 'Depends', 'DEPENDS', 'dePends', 'x-y', 'X-Y', 'X-y', 'md5SUM', 'MD5sum', 'a', 'A']
@@ -57,8 +57,19 @@ def route(rng):
         return ['m', items]
     if k < 0.6:
         return ['p', items]
-    if k < 0.9:
+    if k < 0.8:
         return ['s', [rng.choice((kv[0] + ': ' + kv[1], kv[0] + ':' + kv[1], kv[0], kv[0] + ': ' + kv[1] + ': x')) for kv in items]]
+    if k < 0.95:
+        # a text or a file object: mostly a paragraph spelling the items (any case, repeated names, continuation lines),
+        # sometimes an arbitrary deb822-looking text
+        if rng.random() < 0.7:
+            text = ''.join('%s:%s%s\n' % (kv[0], rng.choice((' ', '', '  ')), kv[1].replace('\n', '\n ')) for kv in items)
+            if rng.random() < 0.2:
+                text += rng.choice(('\n', ' cont\n', 'junk\n', '\nBody: x\n'))
+        else:
+            import gen822
+            text = gen822.random_text(rng, 5)
+        return [rng.choice('tf'), text]
     return ['e']
 
 
@@ -90,6 +101,10 @@ def build(r):
         return debcon.Debian822([tuple(x) for x in r[1]])
     if r[0] == 's':
         return debcon.Debian822(list(r[1]))
+    if r[0] == 't':
+        return debcon.Debian822(r[1])
+    if r[0] == 'f':
+        return debcon.Debian822(io.StringIO(r[1]))
     return debcon.Debian822()
 
 
@@ -237,6 +252,8 @@ def valid_input(opname, inp):
                     assert len(set(x[0] for x in r[1])) == len(r[1]) or True
             elif r[0] == 's':
                 assert all(isinstance(x, str) for x in r[1])
+            elif r[0] in 'tf':
+                assert len(r) == 2 and isinstance(r[1], str)
             else:
                 assert r == ['e']
             for o in ops:
